@@ -17,7 +17,9 @@ var Registry = map[string]func(tier string) int{
 	"C12": C12,
 	"C13": C13,
 	"C14": C14,
+	"C15": C15,
 	"C17": C17,
+	"C18": C18,
 	"C20": C20,
 }
 
